@@ -500,7 +500,13 @@ def canon(impl_line, cmd=""):
         # the model also predicts where the label is bound and how long the section becomes (embed_layout, C19_embed_layout)
         kv = dict(x.split("=", 1) for x in right.split() if "=" in x)
         hx = left.split()[1] if len(left.split()) > 1 else ""
-        return ("E %s %s %s" % (hx, kv.get("lab"), kv.get("end"))).replace("E  ", "E  ")
+        base = "E %s %s %s" % (hx, kv.get("lab"), kv.get("end"))
+        if cmd.split()[1] == "4" and ",log=" in kv.get("aux", ""):
+            item, _, loghex = kv["aux"].partition(",log=")[2].partition(":")
+            loghex = loghex.split(":")[0]
+            w = int(item)
+            base += " L%dx%d" % (w, (len(loghex) // 2) // w if w else 0)
+        return base
     return left
 
 
@@ -643,6 +649,7 @@ def run(ck):
     nontrivial = set()
     judged = 0
     first_corr = None
+    corr_seqs = []      # histories on which model and implementation disagree although the monitor sees no violation yet
     for si, (lines, ai, am) in enumerate(zip(seqs, ri, rm)):
         if ai is None:
             continue
@@ -680,6 +687,8 @@ def run(ck):
                 disagreements += 1
                 if not found and first_corr is None:
                     first_corr = (lines[:i + 1], x, y)
+                if not found and len(corr_seqs) < 40:
+                    corr_seqs.append(lines)
                 break
     rj, fail_j = f_judge.result()
     n_judged = 0
@@ -724,6 +733,36 @@ def run(ck):
                      "(coq/gen/C19_Params.v: src_params = model_params fails): %s" % ("; ".join(tr["problems"]) or tr["log"]),
                      {"broken": "translator tie C19_params_ok: " + "; ".join(tr["problems"]), "log": tr["log"]}, no_input=True)
     ck.log("theorems: %d, failed: %d" % (len(ck.obligations), len(ck.proof_failures())))
+    # sharper search: a changed placement policy may be harmless so far and bite only later. Every disagreeing history (up to 40) is
+    # EXTENDED with probing adds (fresh constants of every size, twice; parts of every earlier wider constant; every earlier constant
+    # again) and judged again by the monitor on the implementation's answers.
+    if first_corr is not None and not any(not v["no_input"] for v in ck.violations):
+        ext_found = 0
+        for lines in corr_seqs:
+            adds = [l for l in lines if l[0] == "A" and int(l.split()[1]) in VALID]
+            probe = []
+            for rep in range(2):
+                for z in (64, 32, 16, 8, 4, 2, 1):
+                    probe.append("A %d %s" % (z, bytes([0xB0 + rep * 8 + z.bit_length()] * z).hex()))
+            for a in adds[-12:]:
+                t = a.split(); z = int(t[1]); d = bytes.fromhex(t[2])
+                for part in (z // 2, z // 4):
+                    if part >= 1:
+                        probe.append("A %d %s" % (part, d[z - part:z].hex()))
+                probe.append(a)
+            ext = [l for l in lines if l[0] in "NR" or (l[0] == "A" and int(l.split()[1]) in VALID)] + probe + ["Q", "F", "E 0 3", "X 0"]
+            rc, ans, _ = run_stream(impl, ext, 30)
+            if rc != 0 or len(ans) != len(ext):
+                ck.violation("C19/crash", "the implementation crashed or hung (rc=%s) on an extended disagreeing history" % rc, {"commands": ext[:len(ans) + 1]})
+                ext_found += 1
+                continue
+            for (key, what, i) in monitor_sequence(ext, ans)[0][:2]:
+                ext_found += 1
+                small = shrink(impl, ext[:i + 1], key) if n_shrunk[0] < 8 else ext[:i + 1]
+                n_shrunk[0] += 1
+                ck.violation(key, what + " [found by extending a history on which model and implementation disagree; minimised history has %d adds]"
+                             % sum(1 for l in small if l[0] == "A"), {"commands": small, "found_by": "extension search"})
+        ck.notes.append("extension search over %d disagreeing histories found %d violations" % (len(corr_seqs), ext_found))
     if first_corr is not None and not any(not v["no_input"] for v in ck.violations):
         lines, x, y = first_corr
         ck.violation("C19/correspondence", "implementation and proven model disagree after %r: impl %r, model %r; the independent monitor found no violated "
